@@ -87,8 +87,11 @@ impl<'a> IrEmitter<'a> {
                 quote! { false }
             }),
             IrExprKind::Int(n) => {
-                // Emit integers without suffix to let Rust infer the type
-                let lit = if *n >= 0 {
+                // Emit integers without suffix to let Rust infer the type. A literal that does not fit `i32` is pinned
+                // to `i64`: with nothing else to infer from (`a_big == another_big`) rustc falls back to `i32` and rejects it.
+                let lit = if *n > i64::from(i32::MAX) || *n < i64::from(i32::MIN) {
+                    Literal::i64_suffixed(*n)
+                } else if *n >= 0 {
                     Literal::u64_unsuffixed(*n as u64)
                 } else {
                     Literal::i64_unsuffixed(*n)
